@@ -272,14 +272,15 @@ theorem finish_correct (cfg : Cfg) (hD1 : cfg.fixDeleteAll = true) (hD17 : cfg.f
 /-! ## Part 3: the file table filled by C10's reader, the WCOLL step -/
 open PdshVerif.Opt.Wcoll (LineMode FS readWcoll FileOK FsOK ContentOK LineOK PlainPath inclOK joinLines)
 
-/-- `Env.files` of C02's model, filled by C10's reader: a path is in the table iff reading it is not fatal -/
-def filesOf (mode : LineMode) (fs : FS) (paths : List Str) : List (Str × List Str) :=
+/-- `Env.files` of C02's model, filled by C10's reader: a path is in the table iff reading it is not fatal;
+    the path `-` stands for standard input (`stdin` = its bytes) -/
+def filesOf (mode : LineMode) (fs : FS) (stdin : Str) (paths : List Str) : List (Str × List Str) :=
   paths.filterMap fun p =>
-    if (readWcoll mode fs [] p).1.fatal then none else some (p, (readWcoll mode fs [] p).1.exprs)
+    if (readWcoll mode fs stdin p).1.fatal then none else some (p, (readWcoll mode fs stdin p).1.exprs)
 
-theorem lookup_filesOf (mode : LineMode) (fs : FS) : ∀ (paths : List Str) (p : Str), p ∈ paths →
-    (readWcoll mode fs [] p).1.fatal = false →
-    (filesOf mode fs paths).lookup p = some (readWcoll mode fs [] p).1.exprs
+theorem lookup_filesOf (mode : LineMode) (fs : FS) (stdin : Str) : ∀ (paths : List Str) (p : Str), p ∈ paths →
+    (readWcoll mode fs stdin p).1.fatal = false →
+    (filesOf mode fs stdin paths).lookup p = some (readWcoll mode fs stdin p).1.exprs
   | [], _, h, _ => by simp at h
   | q :: qs, p, h, hf => by
     by_cases hpq : p = q
@@ -289,7 +290,7 @@ theorem lookup_filesOf (mode : LineMode) (fs : FS) : ∀ (paths : List Str) (p :
         rcases List.mem_cons.mp h with h | h
         · exact absurd h hpq
         · exact h
-      have ih := lookup_filesOf mode fs qs p hin hf
+      have ih := lookup_filesOf mode fs stdin qs p hin hf
       unfold filesOf at ih ⊢
       rw [List.filterMap_cons]
       split
@@ -489,22 +490,38 @@ theorem fileOKB_sound {mode : LineMode} {fs : FS} {p : Str} (h : fileOKB mode fs
   rw [h3] at this; cases this
 
 /-- the file is in the domain of C10's `file_source_spec_partial`, the specification reads it without error,
-    and its expressions are these words -/
-def readsAsB (mode : LineMode) (fs : FS) (p : Str) (ws : List Spec.Word) : Bool :=
-  fileOKB mode fs p && !(WcollSpec.fileHosts fs p).error &&
-  decide ((WcollSpec.fileHosts fs p).exprs = ws.map Spec.renderWord)
+    and its expressions are these words; for `-` (standard input): the stream is in the domain of
+    `file_hosts_spec_partial` with the directory `.` -/
+def readsAsB (mode : LineMode) (fs : FS) (stdin : Str) (p : Str) (ws : List Spec.Word) : Bool :=
+  if p = ['-'] then
+    fsOKB mode.cap ['.'] fs && contentOKB mode.cap ['.'] stdin &&
+    !(WcollSpec.streamHosts fs ['.'] stdin).error &&
+    decide ((WcollSpec.streamHosts fs ['.'] stdin).exprs = ws.map Spec.renderWord)
+  else
+    fileOKB mode fs p && !(WcollSpec.fileHosts fs p).error &&
+    decide ((WcollSpec.fileHosts fs p).exprs = ws.map Spec.renderWord)
 
 /-- C10 → C02: the reader fills the table with the words' texts -/
-theorem readsAs_lookup {mode : LineMode} {fs : FS} {p : Str} {ws : List Spec.Word}
-    (h : readsAsB mode fs p ws = true) (paths : List Str) (hp : p ∈ paths) :
-    (filesOf mode fs paths).lookup p = some (ws.map Spec.renderWord) := by
+theorem readsAs_lookup {mode : LineMode} {fs : FS} {stdin : Str} {p : Str} {ws : List Spec.Word}
+    (h : readsAsB mode fs stdin p ws = true) (paths : List Str) (hp : p ∈ paths) :
+    (filesOf mode fs stdin paths).lookup p = some (ws.map Spec.renderWord) := by
   unfold readsAsB at h
-  simp only [Bool.and_eq_true, Bool.not_eq_true', decide_eq_true_eq] at h
-  obtain ⟨⟨h1, h2⟩, h3⟩ := h
-  have ok := fileOKB_sound h1
-  obtain ⟨e1, _, e3⟩ := Wcoll.file_source_spec_partial' mode fs [] p ok.notDash
-    (Wcoll.search_path_of_plain p ok.plain ok.noColon) ok.fsok
-  rw [lookup_filesOf mode fs paths p hp (by rw [e3, h2]), e1, h3]
+  split at h
+  · rename_i hdash
+    subst hdash
+    simp only [Bool.and_eq_true, Bool.not_eq_true', decide_eq_true_eq] at h
+    obtain ⟨⟨⟨h0, h1⟩, h2⟩, h3⟩ := h
+    have hdirs : Wcoll.listSplit [':'] ['.'] = [['.']] := by decide
+    have hrd : (readWcoll mode fs stdin ['-']).1 = Wcoll.readStream mode fs [['.']] stdin := by
+      simp [readWcoll, hdirs]
+    obtain ⟨e1, _, e3⟩ := Wcoll.file_hosts_spec_partial' mode fs ['.'] (fsOKB_sound h0) stdin (contentOKB_sound h1)
+    rw [lookup_filesOf mode fs stdin paths _ hp (by rw [hrd, e3, h2]), hrd, e1, h3]
+  · simp only [Bool.and_eq_true, Bool.not_eq_true', decide_eq_true_eq] at h
+    obtain ⟨⟨h1, h2⟩, h3⟩ := h
+    have ok := fileOKB_sound h1
+    obtain ⟨e1, _, e3⟩ := Wcoll.file_source_spec_partial' mode fs stdin p ok.notDash
+      (Wcoll.search_path_of_plain p ok.plain ok.noColon) ok.fsok
+    rw [lookup_filesOf mode fs stdin paths p hp (by rw [e3, h2]), e1, h3]
 
 /-! ## Part 4: the domain as ONE decidable predicate, and the composition -/
 open PdshVerif.Opt.Wcoll (hostPart isspaceC)
@@ -579,19 +596,19 @@ theorem rewordB_sound {cfg : Cfg} {ws : List Spec.Word} (h : rewordB cfg ws = tr
 
 /-- the domain hypotheses of one segment: C01's (`WF`, `wordDom`, also of the first-level names), C02's
     (`HostText`, `XText`, `Entry2Ok`, `badre`) and C10's (`readsAsB`) -/
-def segDomB (cfg : Cfg) (mode : LineMode) (fs : FS) (badre : Str → Bool) : Seg → Bool
+def segDomB (cfg : Cfg) (mode : LineMode) (fs : FS) (stdin : Str) (badre : Str → Bool) : Seg → Bool
   | .cw (.tgt w) => w.WF && decide (wordDom cfg w) && hostTextB (Spec.renderWord w) &&
       decide (hostPart (Spec.renderWord w) = some (Spec.renderWord w)) && rewordB cfg [w]
   | .cw (.xcl w) => xTextB (Spec.renderWord w) && entry2OkB cfg (Spec.renderWord w) w.expand₁
   | .cw (.re _ p) => !badre p
-  | .tfile p ws => readsAsB mode fs p ws && wordsFineB cfg ws && rewordB cfg ws
-  | .xfile p ws => readsAsB mode fs p ws && wordsFineB cfg ws && decide ((xfileText cfg ws).length < 4095) &&
+  | .tfile p ws => readsAsB mode fs stdin p ws && wordsFineB cfg ws && rewordB cfg ws
+  | .xfile p ws => readsAsB mode fs stdin p ws && wordsFineB cfg ws && decide ((xfileText cfg ws).length < 4095) &&
       entry2OkB cfg (xfileText cfg ws) (Spec.expand₁ ws)
 
-theorem segDomB_sound {cfg : Cfg} {mode : LineMode} {fs : FS} {rematch : Str → Str → Option Bool}
+theorem segDomB_sound {cfg : Cfg} {mode : LineMode} {fs : FS} {stdin : Str} {rematch : Str → Str → Option Bool}
     {badre : Str → Bool} (paths : List Str) :
-    ∀ (s : Seg), segDomB cfg mode fs badre s = true → (∀ p ∈ s.paths, p ∈ paths) →
-    SegOk cfg { files := filesOf mode fs paths, rematch := rematch, badre := badre } s ∧ SegFine cfg s ∧
+    ∀ (s : Seg), segDomB cfg mode fs stdin badre s = true → (∀ p ∈ s.paths, p ∈ paths) →
+    SegOk cfg { files := filesOf mode fs stdin paths, rematch := rematch, badre := badre } s ∧ SegFine cfg s ∧
     (∀ w ∈ s.words, ∀ w' ∈ reword w, wordDom cfg w') ∧ (∀ p ∈ s.ent cfg, Entry2Ok cfg p.1 p.2)
   | .cw (.tgt w), h, _ => by
     simp only [segDomB, Bool.and_eq_true, decide_eq_true_eq] at h
@@ -641,9 +658,9 @@ def allPaths (segs : List Seg) (wenv : Option (Str × List Spec.Word)) : List St
   segs.flatMap Seg.paths ++ (match wenv with | some (p, _) => [p] | none => [])
 
 /-- C02's environment, its file table filled by C10's reader -/
-def envOf (mode : LineMode) (fs : FS) (rematch : Str → Str → Option Bool) (badre : Str → Bool)
+def envOf (mode : LineMode) (fs : FS) (stdin : Str) (rematch : Str → Str → Option Bool) (badre : Str → Bool)
     (segs : List Seg) (wenv : Option (Str × List Spec.Word)) : Env :=
-  { files := filesOf mode fs (allPaths segs wenv), rematch := rematch, badre := badre }
+  { files := filesOf mode fs stdin (allPaths segs wenv), rematch := rematch, badre := badre }
 
 /-- `opt->wcoll` before `wcoll_expand` -/
 def finalEL (cfg : Cfg) (segs : List Seg) (wenv : Option (Str × List Spec.Word)) : Option EL :=
@@ -652,14 +669,14 @@ def finalEL (cfg : Cfg) (segs : List Seg) (wenv : Option (Str × List Spec.Word)
   | o, _ => o
 
 /-- THE DOMAIN of `target_list_end_to_end`, one decidable predicate -/
-def targetDomain (cfg : Cfg) (mode : LineMode) (fs : FS) (rematch : Str → Str → Option Bool)
+def targetDomain (cfg : Cfg) (mode : LineMode) (fs : FS) (stdin : Str) (rematch : Str → Str → Option Bool)
     (badre : Str → Bool) (segs : List Seg) (wenv : Option (Str × List Spec.Word)) : Bool :=
   -- every segment is in the domain of the theorem that handles it
-  segs.all (segDomB cfg mode fs badre) &&
+  segs.all (segDomB cfg mode fs stdin badre) &&
   -- there is a source of targets; WCOLL, if it is consulted, is a readable file of words
   (segs.any Seg.isTgt ||
     match wenv with
-    | some (p, ws) => readsAsB mode fs p ws && wordsFineB cfg ws && rewordB cfg ws
+    | some (p, ws) => readsAsB mode fs stdin p ws && wordsFineB cfg ws && rewordB cfg ws
     | none => false) &&
   -- the regex oracle answers for every pattern and target
   ((segs.flatMap Seg.reg).all fun p =>
@@ -668,7 +685,10 @@ def targetDomain (cfg : Cfg) (mode : LineMode) (fs : FS) (rematch : Str → Str 
   -- (a hypothesis on the list, not on the words)
   (match finalEL cfg segs wenv with
    | some e => decide (∀ r ∈ e.ranges, r.ShiftFits)
-   | none => true)
+   | none => true) &&
+  -- standard input is read once: at most one of the sources is `-` (a second one would find end of file,
+  -- `stdin_read_once`; C02's file table is a static lookup)
+  decide ((allPaths segs wenv).count ['-'] ≤ 1)
 
 theorem segs_tgt_expand₁ : ∀ (segs : List Seg), segs.flatMap Seg.tgt = Spec.expand₁ (segs.flatMap Seg.words)
   | [] => rfl
@@ -702,21 +722,21 @@ def targetSpec (env : Env) (segs : List Seg) (wenv : Option (Str × List Spec.Wo
     (keepAll env (segs.flatMap Seg.reg)))
 
 theorem targetList_correct (cfg : Cfg) (hD1 : cfg.fixDeleteAll = true) (hD17 : cfg.fixIterSuffix = true)
-    (hD19 : cfg.fixRemoveDepth = true) (h2 : cfg.fix2Br = true) (mode : LineMode) (fs : FS)
+    (hD19 : cfg.fixRemoveDepth = true) (h2 : cfg.fix2Br = true) (mode : LineMode) (fs : FS) (stdin : Str)
     (rematch : Str → Str → Option Bool)
     (badre : Str → Bool) (segs : List Seg) (wenv : Option (Str × List Spec.Word))
-    (hdom : targetDomain cfg mode fs rematch badre segs wenv = true) :
-    targetList cfg (envOf mode fs rematch badre segs wenv) (wenv.map (·.1)) (segs.map Seg.text) =
-      .ok (targetSpec (envOf mode fs rematch badre segs wenv) segs wenv) := by
+    (hdom : targetDomain cfg mode fs stdin rematch badre segs wenv = true) :
+    targetList cfg (envOf mode fs stdin rematch badre segs wenv) (wenv.map (·.1)) (segs.map Seg.text) =
+      .ok (targetSpec (envOf mode fs stdin rematch badre segs wenv) segs wenv) := by
   unfold targetDomain at hdom
   simp only [Bool.and_eq_true, List.all_eq_true] at hdom
-  obtain ⟨⟨⟨d1, d2⟩, d4⟩, d5⟩ := hdom
+  obtain ⟨⟨⟨⟨d1, d2⟩, d4⟩, d5⟩, _⟩ := hdom
   -- the segments, one by one
   have hseg := fun s (hs : s ∈ segs) =>
-    segDomB_sound (cfg := cfg) (mode := mode) (fs := fs) (rematch := rematch) (badre := badre)
+    segDomB_sound (cfg := cfg) (mode := mode) (fs := fs) (stdin := stdin) (rematch := rematch) (badre := badre)
       (allPaths segs wenv) s (d1 s hs)
       (fun p hp => List.mem_append_left _ (List.mem_flatMap.mpr ⟨s, hs, hp⟩))
-  have hst := argsProcess_segs cfg (envOf mode fs rematch badre segs wenv) segs {}
+  have hst := argsProcess_segs cfg (envOf mode fs stdin rematch badre segs wenv) segs {}
     (fun s hs => (hseg s hs).1)
   obtain ⟨i1, i2, i3, i4⟩ := foldl_step_spec cfg segs {} [] (by simp [WInv]) (fun s hs => (hseg s hs).2.1)
   simp only [List.nil_append, List.append_nil, Option.isSome_none, Bool.false_or] at i1 i2 i3 i4
@@ -733,9 +753,9 @@ theorem targetList_correct (cfg : Cfg) (hD1 : cfg.fixDeleteAll = true) (hD17 : c
       e.Good → e.hosts = Spec.expand₁ (tgtWords segs wenv) →
       (∀ w ∈ tgtWords segs wenv, w.WF = true) →
       (∀ w ∈ tgtWords segs wenv, ∀ w' ∈ reword w, wordDom cfg w') →
-      finish cfg (envOf mode fs rematch badre segs wenv)
+      finish cfg (envOf mode fs stdin rematch badre segs wenv)
         { wcoll := some e, excl := (segs.foldl (step cfg) {}).excl, regex := (segs.foldl (step cfg) {}).regex } =
-      .ok (targetSpec (envOf mode fs rematch badre segs wenv) segs wenv) := by
+      .ok (targetSpec (envOf mode fs stdin rematch badre segs wenv) segs wenv) := by
     intro e hfe hg hh hwf hd2
     have hsf : ∀ r ∈ e.ranges, r.ShiftFits := by
       rw [hfe] at d5; simpa using d5
